@@ -114,23 +114,70 @@ func (m *Model) anchorChainMerge() *ssa.Function {
 	}) {
 		out = s.Common().StaticCallee()
 	}
+	// the chain walk may be extracted once more: descend to the function of the package that stores Edge.To itself
+	for depth := 0; out != nil && depth < 3; depth++ {
+		direct := false
+		for _, w := range m.effects[out].Writes {
+			if w.Loc == igEdge+".To" && w.Via == "" && !w.Fresh {
+				direct = true
+			}
+		}
+		if direct {
+			break
+		}
+		var next *ssa.Function
+		for _, s := range staticCalls(out, func(c *ssa.Function) bool {
+			e := m.effects[c]
+			return e != nil && pkgPathOf(c) == pkgPathOf(mg) && e.Mod[igEdge+".To"]
+		}) {
+			next = s.Common().StaticCallee()
+		}
+		if next == nil {
+			break
+		}
+		out = next
+	}
 	return out
 }
 
 // anchorBreakEdge: the phase-3 function that constructs a virtual node (fresh store of IsVirtual) and links it in.
 func (m *Model) anchorBreakEdge() *ssa.Function {
 	m.fxInit()
+	makesVirtual := func(f *ssa.Function) bool {
+		for _, w := range m.effects[f].Writes {
+			if w.Loc == igNode+".IsVirtual" && w.Fresh && w.Via == "" {
+				return true
+			}
+		}
+		return false
+	}
+	var fallback *ssa.Function
 	for _, f := range m.Src {
 		if shortPkg(pkgPathOf(f)) != "internal/phase3" || m.FuncIsPosctl(f) {
 			continue
 		}
+		// constructs the helper node itself or through a constructor of the package ...
+		mk := makesVirtual(f)
+		if !mk {
+			for _, s := range staticCalls(f, func(c *ssa.Function) bool { return pkgPathOf(c) == pkgPathOf(f) && m.effects[c] != nil && makesVirtual(c) }) {
+				_ = s
+				mk = true
+			}
+		}
+		if !mk {
+			continue
+		}
+		if fallback == nil {
+			fallback = f
+		}
+		// ... and links it into the graph: re-targets an existing edge
 		for _, w := range m.effects[f].Writes {
-			if w.Loc == igNode+".IsVirtual" && w.Fresh {
+			if w.Loc == igEdge+".To" && !w.Fresh && w.Via == "" {
 				return f
 			}
 		}
 	}
-	return nil
+	return fallback
 }
 
 // eventSites returns the instructions of f that are events: pred holds for them, or they are static calls to a function of the
